@@ -237,8 +237,19 @@ func (R *Repository) checkCrl(certificate *x509.Certificate, identifier string) 
 				return status, nil
 			}
 		}
+	} else if R.isEntryClosed(identifier) {
+		//the repository was closed while this lookup was running, the status is unknown
+		return nil, errors.New("could not get revocation status from repository: repository was closed")
 	}
 	return &core.RevocationStatus{}, nil
+}
+
+// isEntryClosed returns true if the entry was closed by Close, in contrast to an entry which was never added or was deleted
+func (R *Repository) isEntryClosed(identifier string) bool {
+	R.crlRepositoryLock.RLock()
+	defer R.crlRepositoryLock.RUnlock()
+	entry, present := R.crlRepository[identifier]
+	return present && entry == nil
 }
 
 func (R *Repository) getCurrentIdentifiers() []string {
